@@ -292,6 +292,7 @@ pub fn process<I: BufRead, O: Write>(
     let filename = context.current_filename.clone();
     let filename_rc = std::rc::Rc::<String>::new(filename.clone());
     let mut in_multiline_comments = false;
+    let mut last_line_open = false;
 
     let (included_in, included_in_rc) = match context.includes_stack.last() {
         Some(s) => (
@@ -776,10 +777,16 @@ pub fn process<I: BufRead, O: Write>(
                     if !new_line.ends_with('\n') && has_lf {
                         output.write_all(b"\n")?;
                     }
+                    last_line_open = !new_line.ends_with('\n') && !has_lf;
                 }
             }
         }
         buf.clear();
+    }
+    // An included file whose last line has no newline must not be glued to the next line of
+    // the including file (it would also shift every following line number by one)
+    if last_line_open && included_in.is_some() {
+        output.write_all(b"\n")?;
     }
     Ok(lines)
 }
